@@ -7,4 +7,294 @@ import SodiumModel.Proofs.Utils
 open Sodium Sodium.Model
 namespace Sodium
 
+/-! ### xorBytes -/
+
+theorem xorBytes_nil_left (k : Bytes) : xorBytes [] k = [] := by
+  cases k <;> rfl
+
+theorem xorBytes_nil_right (m : Bytes) : xorBytes m [] = [] := by
+  cases m <;> rfl
+
+theorem xorBytes_length : ∀ a b : Bytes, (xorBytes a b).length = min a.length b.length
+  | [], b => by simp [xorBytes_nil_left]
+  | _ :: _, [] => by simp [xorBytes]
+  | x :: xs, y :: ys => by
+    simp only [xorBytes, List.length_cons, xorBytes_length xs ys]; omega
+
+/-- splitting the key stream at any point splits the message at the same point -/
+theorem xorBytes_append_right : ∀ (m a r : Bytes),
+    xorBytes m (a ++ r) = xorBytes (m.take a.length) a ++ xorBytes (m.drop a.length) r
+  | m, [], r => by simp [xorBytes_nil_right]
+  | [], _ :: _, r => by simp [xorBytes_nil_left]
+  | x :: xs, y :: ys, r => by
+    simp [xorBytes, xorBytes_append_right xs ys r]
+
+theorem xorBytes_append (a b c d : Bytes) (h : a.length = c.length) :
+    xorBytes (a ++ b) (c ++ d) = xorBytes a c ++ xorBytes b d := by
+  rw [xorBytes_append_right, ← h]; simp
+
+/-- only the first `m.length` key-stream bytes matter -/
+theorem xorBytes_take_right : ∀ (m k : Bytes) (n : Nat), m.length ≤ n →
+    xorBytes m (k.take n) = xorBytes m k
+  | [], k, n, _ => by simp [xorBytes_nil_left]
+  | _ :: _, [], n, _ => by simp
+  | x :: xs, y :: ys, 0, h => by simp at h
+  | x :: xs, y :: ys, n + 1, h => by
+    simp [xorBytes, xorBytes_take_right xs ys n (by simpa using h)]
+
+theorem xorBytes_drop : ∀ (a b : Bytes) (n : Nat),
+    (xorBytes a b).drop n = xorBytes (a.drop n) (b.drop n)
+  | a, b, 0 => by simp
+  | [], b, n + 1 => by simp [xorBytes_nil_left]
+  | _ :: _, [], n + 1 => by simp [xorBytes, xorBytes_nil_right]
+  | x :: xs, y :: ys, n + 1 => by simp [xorBytes, xorBytes_drop xs ys n]
+
+theorem xorBytes_zeros_left : ∀ (n : Nat) (k : Bytes), xorBytes (zeros n) k = k.take n
+  | 0, k => by simp [zeros, xorBytes_nil_left]
+  | n + 1, [] => by simp [zeros, List.replicate_succ, xorBytes]
+  | n + 1, y :: ys => by
+    have := xorBytes_zeros_left n ys
+    simp only [zeros] at this
+    simp [zeros, List.replicate_succ, xorBytes, this]
+
+/-! ### consecutive blocks and `streamFrom` -/
+
+/-- `n` consecutive blocks starting at block number `c` -/
+def blocks (blk : Nat → Bytes) (c n : Nat) : Bytes :=
+  (List.range n).flatMap fun i => blk (c + i)
+
+theorem blocks_zero (blk : Nat → Bytes) (c : Nat) : blocks blk c 0 = [] := rfl
+
+theorem blocks_succ (blk : Nat → Bytes) (c n : Nat) :
+    blocks blk c (n + 1) = blk c ++ blocks blk (c + 1) n := by
+  simp only [blocks, List.range_succ_eq_map, List.flatMap_cons, List.flatMap_map, Nat.add_zero]
+  congr 2
+  funext i
+  simp [Nat.add_assoc, Nat.add_comm 1 i]
+
+theorem blocks_length (blk : Nat → Bytes) (h : ∀ i, (blk i).length = 64) (c n : Nat) :
+    (blocks blk c n).length = 64 * n := by
+  induction n generalizing c with
+  | zero => rfl
+  | succ n ih => rw [blocks_succ, List.length_append, h, ih]; omega
+
+theorem blocks_add (blk : Nat → Bytes) (c a b : Nat) :
+    blocks blk c (a + b) = blocks blk c a ++ blocks blk (c + a) b := by
+  induction a generalizing c with
+  | zero => simp [blocks_zero]
+  | succ a ih =>
+    rw [Nat.add_right_comm a 1 b, blocks_succ, blocks_succ, ih, List.append_assoc]
+    congr 3; omega
+
+theorem blocks_congr (blk blk' : Nat → Bytes) (c c' n : Nat)
+    (h : ∀ i, i < n → blk (c + i) = blk' (c' + i)) : blocks blk c n = blocks blk' c' n := by
+  induction n generalizing c c' with
+  | zero => rfl
+  | succ n ih =>
+    rw [blocks_succ, blocks_succ, ih (c + 1) (c' + 1)]
+    · have := h 0 (by omega); simp only [Nat.add_zero] at this; rw [this]
+    · intro i hi
+      have := h (i + 1) (by omega)
+      simpa [Nat.add_assoc, Nat.add_comm 1 i] using this
+
+/-- block-aligned start: `streamFrom` is a prefix of the consecutive blocks from `c` -/
+theorem streamFrom_aligned (blk : Nat → Bytes) (c len : Nat) :
+    Spec.Chacha.streamFrom blk (64 * c) len = (blocks blk c ((len + 63) / 64)).take len := by
+  simp only [Spec.Chacha.streamFrom, blocks, Nat.mul_mod_right, Nat.zero_add, List.drop_zero]
+  rw [Nat.mul_div_cancel_left c (by decide : 0 < 64)]
+
+theorem streamFrom_zero (blk : Nat → Bytes) (len : Nat) :
+    Spec.Chacha.streamFrom blk 0 len = (blocks blk 0 ((len + 63) / 64)).take len := by
+  have := streamFrom_aligned blk 0 len
+  simpa using this
+
+theorem streamFrom_length (blk : Nat → Bytes) (h : ∀ i, (blk i).length = 64) (c len : Nat) :
+    (Spec.Chacha.streamFrom blk (64 * c) len).length = len := by
+  rw [streamFrom_aligned, List.length_take, blocks_length blk h]; omega
+
+/-- skipping whole blocks of the stream from 0 gives the stream from that block -/
+theorem streamFrom_drop (blk : Nat → Bytes) (h : ∀ i, (blk i).length = 64) (a len : Nat) :
+    (Spec.Chacha.streamFrom blk 0 (64 * a + len)).drop (64 * a) =
+      Spec.Chacha.streamFrom blk (64 * a) len := by
+  rw [streamFrom_zero, streamFrom_aligned, List.drop_take]
+  have hn : (64 * a + len + 63) / 64 = a + (len + 63) / 64 := by omega
+  rw [hn, blocks_add, Nat.zero_add, List.drop_append_of_le_length (by rw [blocks_length blk h]; omega)]
+  rw [List.drop_of_length_le (by rw [blocks_length blk h]; omega)]
+  simp
+
+/-! ### the abstract loop: one block per iteration, block numbers in `Nat` -/
+
+def specLoop (blk : Nat → Bytes) : Nat → Nat → Bytes → Bytes
+  | 0, _, _ => []
+  | fuel + 1, c, m =>
+    if m.isEmpty then [] else
+    xorBytes (m.take 64) (blk c) ++ specLoop blk fuel (c + 1) (m.drop 64)
+
+theorem specLoop_eq_blocks (blk : Nat → Bytes) (h : ∀ i, (blk i).length = 64) :
+    ∀ (fuel c : Nat) (m : Bytes), (m.length + 63) / 64 ≤ fuel →
+      specLoop blk fuel c m = xorBytes m (blocks blk c ((m.length + 63) / 64))
+  | 0, c, m, hf => by
+    have : m = [] := by
+      cases m with
+      | nil => rfl
+      | cons x xs => simp only [List.length_cons] at hf; omega
+    subst this; simp [specLoop, xorBytes_nil_left]
+  | fuel + 1, c, m, hf => by
+    cases hm : m with
+    | nil => simp [specLoop, xorBytes_nil_left]
+    | cons x xs =>
+      have hne : m.isEmpty = false := by simp [hm]
+      have hpos : 0 < m.length := by simp [hm]
+      rw [← hm]
+      have hn : (m.length + 63) / 64 = ((m.drop 64).length + 63) / 64 + 1 := by
+        rw [List.length_drop]; omega
+      have ih := specLoop_eq_blocks blk h fuel (c + 1) (m.drop 64) (by omega)
+      simp only [specLoop, hne, Bool.false_eq_true, if_false]
+      rw [ih, hn, blocks_succ, xorBytes_append_right, h]
+
+theorem specLoop_eq_stream (blk : Nat → Bytes) (h : ∀ i, (blk i).length = 64)
+    (fuel c : Nat) (m : Bytes) (hf : (m.length + 63) / 64 ≤ fuel) :
+    specLoop blk fuel c m = xorBytes m (Spec.Chacha.streamFrom blk (64 * c) m.length) := by
+  rw [specLoop_eq_blocks blk h fuel c m hf, streamFrom_aligned,
+    xorBytes_take_right _ _ _ (Nat.le_refl _)]
+
+/-! ### ChaCha20: the two 32-bit counter words -/
+
+/-- `(j12 + 1, if j12 + 1 = 0 then j13 + 1 else j13)` represents the next block number mod 2^64 -/
+theorem chacha_ctr_step (j12 j13 : UInt32) (c : Nat)
+    (hc : c % 2 ^ 64 = j12.toNat + 2 ^ 32 * j13.toNat) :
+    (c + 1) % 2 ^ 64 =
+      (j12 + 1).toNat + 2 ^ 32 * (if j12 + 1 = 0 then j13 + 1 else j13).toNat := by
+  have h1 := j12.toNat_lt; have h2 := j13.toNat_lt
+  have ha : (j12 + 1).toNat = (j12.toNat + 1) % 2 ^ 32 := by rw [UInt32.toNat_add]; rfl
+  have hb : (j13 + 1).toNat = (j13.toNat + 1) % 2 ^ 32 := by rw [UInt32.toNat_add]; rfl
+  by_cases hz : j12 + 1 = 0
+  · have hz' : (j12 + 1).toNat = 0 := by rw [hz]; rfl
+    rw [if_pos hz, hb, hz']
+    omega
+  · have hz' : (j12 + 1).toNat ≠ 0 := fun e => hz (UInt32.toNat_inj.mp (by rw [e]; rfl))
+    rw [if_neg hz, ha]
+    omega
+
+theorem chachaLoop_eq_specLoop (B : BlockFn) (blk : Nat → Bytes)
+    (hblk : ∀ i, blk i = B (UInt32.ofNat (i % 2 ^ 64 % 2 ^ 32)) (UInt32.ofNat (i % 2 ^ 64 / 2 ^ 32 % 2 ^ 32))) :
+    ∀ (fuel : Nat) (j12 j13 : UInt32) (c : Nat) (m : Bytes),
+      c % 2 ^ 64 = j12.toNat + 2 ^ 32 * j13.toNat →
+      chachaLoop B fuel j12 j13 m = specLoop blk fuel c m
+  | 0, _, _, _, _, _ => rfl
+  | fuel + 1, j12, j13, c, m, hc => by
+    have h1 := j12.toNat_lt; have h2 := j13.toNat_lt
+    have hb : blk c = B j12 j13 := by
+      rw [hblk, hc]
+      have e1 : (j12.toNat + 2 ^ 32 * j13.toNat) % 2 ^ 32 = j12.toNat := by omega
+      have e2 : (j12.toNat + 2 ^ 32 * j13.toNat) / 2 ^ 32 % 2 ^ 32 = j13.toNat := by omega
+      rw [e1, e2, UInt32.ofNat_toNat, UInt32.ofNat_toNat]
+    have ih := chachaLoop_eq_specLoop B blk hblk fuel (j12 + 1)
+      (if j12 + 1 = 0 then j13 + 1 else j13) (c + 1) (m.drop 64) (chacha_ctr_step j12 j13 c hc)
+    simp only [chachaLoop, specLoop, hb, ih]
+
+/-- IETF layout, no counter wrap: if the last block number stays below 2^32, word 13 (the first nonce
+    word) is never touched and block `i` uses the 32-bit counter `i` -/
+theorem ietf_loop_eq (Bi : BlockFn) (hB : ∀ a b, (Bi a b).length = 64) (n0 ic : UInt32) (m : Bytes)
+    (h : ic.toNat + (m.length + 63) / 64 ≤ 2 ^ 32) :
+    chacha_ietf_ext_xor_ic Bi n0 ic m =
+      xorBytes m (Spec.Chacha.streamFrom (fun i => Bi (UInt32.ofNat i) n0) (64 * ic.toNat) m.length) := by
+  have h1 := ic.toNat_lt; have h2 := n0.toNat_lt
+  rw [chacha_ietf_ext_xor_ic,
+    chachaLoop_eq_specLoop Bi _ (fun _ => rfl) _ _ _ (ic.toNat + 2 ^ 32 * n0.toNat) m (by omega),
+    specLoop_eq_blocks _ (fun _ => hB _ _) _ _ _ (by omega), streamFrom_aligned,
+    xorBytes_take_right _ _ _ (Nat.le_refl _)]
+  congr 1
+  apply blocks_congr
+  intro i hi
+  have e1 : (ic.toNat + 2 ^ 32 * n0.toNat + i) % 2 ^ 64 % 2 ^ 32 = ic.toNat + i := by omega
+  have e2 : (ic.toNat + 2 ^ 32 * n0.toNat + i) % 2 ^ 64 / 2 ^ 32 % 2 ^ 32 = n0.toNat := by omega
+  simp only [e1, e2, UInt32.ofNat_toNat]
+
+/-! ### IETF guard -/
+
+theorem ietfGuardFails_iff (ic : UInt32) (mlen : UInt64) :
+    ietfGuardFails ic mlen = true ↔
+      (2 ^ 38 < mlen.toNat ∨
+        ic.toNat > (2 ^ 64 + 2 ^ 32 - (mlen.toNat + 63) % 2 ^ 64 / 64) % 2 ^ 64) := by
+  have hk : (274877906944 : UInt64) / 64 = 4294967296 := by decide
+  have hk' : ((64 : UInt64) * ((1 : UInt64) <<< 32)) = 274877906944 := by decide
+  have hk'' : (274877906944 : UInt64).toNat = 2 ^ 38 := by decide
+  have h1 : (mlen + 63).toNat = (mlen.toNat + 63) % 2 ^ 64 := by rw [UInt64.toNat_add]; rfl
+  have h2 : ((mlen + 63) / 64).toNat = (mlen.toNat + 63) % 2 ^ 64 / 64 := by
+    rw [UInt64.toNat_div, h1]; rfl
+  have h3 : ((4294967296 : UInt64) - (mlen + 63) / 64).toNat =
+      (2 ^ 64 + 2 ^ 32 - (mlen.toNat + 63) % 2 ^ 64 / 64) % 2 ^ 64 := by
+    rw [UInt64.toNat_sub, h2]
+    have : (4294967296 : UInt64).toNat = 2 ^ 32 := by decide
+    rw [this]
+    have : (mlen.toNat + 63) % 2 ^ 64 / 64 ≤ 2 ^ 64 := by omega
+    omega
+  simp only [ietfGuardFails, hk', hk, Bool.or_eq_true, decide_eq_true_eq, GT.gt,
+    UInt64.lt_iff_toNat_lt, h3, hk'', UInt32.toNat_toUInt64]
+
+/-- the guard (with the `mlen > MESSAGEBYTES_MAX` disjunct) fires exactly when the request would run
+    past block 2^32 — for every `ic` and every 64-bit `mlen` -/
+theorem ietfGuardFails_spec (ic : UInt32) (mlen : UInt64) :
+    ietfGuardFails ic mlen = true ↔ 2 ^ 32 < ic.toNat + (mlen.toNat + 63) / 64 := by
+  have h1 := ic.toNat_lt; have h2 := mlen.toNat_lt
+  rw [ietfGuardFails_iff]; omega
+
+/-! ### Salsa20: byte-wise counter -/
+
+theorem salsaCtrInc_length (u : UInt32) (n : Bytes) : (salsaCtrInc u n).length = n.length := by
+  induction n generalizing u with
+  | nil => rfl
+  | cons x xs ih => simp [salsaCtrInc, ih]
+
+theorem salsaCtrInc_le (u : UInt32) (n : Bytes) (hu : u.toNat ≤ 1) :
+    ∃ k, k ≤ 1 ∧ le (salsaCtrInc u n) + k * 256 ^ n.length = u.toNat + le n := by
+  induction n generalizing u with
+  | nil => exact ⟨u.toNat, hu, by simp [salsaCtrInc, le]⟩
+  | cons x xs ih =>
+    have hx := x.toNat_lt
+    have h1 : (u + x.toUInt32).toNat = u.toNat + x.toNat := by
+      rw [UInt32.toNat_add]; simp; omega
+    have h2 : ((u + x.toUInt32) >>> 8).toNat = (u.toNat + x.toNat) / 256 := by
+      rw [UInt32.toNat_shiftRight, h1]; simp [Nat.shiftRight_eq_div_pow]
+    have h3 : (u + x.toUInt32).toUInt8.toNat = (u.toNat + x.toNat) % 256 := by
+      rw [UInt32.toNat_toUInt8, h1]
+    obtain ⟨k, hk, ih⟩ := ih ((u + x.toUInt32) >>> 8) (by rw [h2]; omega)
+    refine ⟨k, hk, ?_⟩
+    simp only [salsaCtrInc, le, h3, List.length_cons, Nat.pow_succ]
+    rw [h2] at ih
+    have hk' : k = 0 ∨ k = 1 := by omega
+    rcases hk' with rfl | rfl <;> simp at ih ⊢ <;> omega
+
+theorem salsaCtrInc_one_le (ctr : Bytes) (h : ctr.length = 8) :
+    le (salsaCtrInc 1 ctr) = (le ctr + 1) % 2 ^ 64 := by
+  obtain ⟨k, hk, e⟩ := salsaCtrInc_le 1 ctr (by decide)
+  have hlt := le_lt (salsaCtrInc 1 ctr)
+  have hlt' := le_lt ctr
+  rw [salsaCtrInc_length] at hlt
+  rw [h] at e hlt hlt'
+  have hp : (256 : Nat) ^ 8 = 2 ^ 64 := by decide
+  rw [hp] at e hlt hlt'
+  have h1 : (1 : UInt32).toNat = 1 := rfl
+  rw [h1] at e
+  have hk' : k = 0 ∨ k = 1 := by omega
+  rcases hk' with rfl | rfl <;> omega
+
+theorem salsaCtrInc_toLE (c : Nat) :
+    salsaCtrInc 1 (toLE 8 (c % 2 ^ 64)) = toLE 8 ((c + 1) % 2 ^ 64) := by
+  apply le_inj
+  · rw [salsaCtrInc_length, toLE_length, toLE_length]
+  · rw [salsaCtrInc_one_le _ (toLE_length _ _), le_toLE, le_toLE]
+    have hp : (256 : Nat) ^ 8 = 2 ^ 64 := by decide
+    rw [hp]; omega
+
+theorem salsaLoop_eq_specLoop (S : SalsaBlockFn) :
+    ∀ (fuel c : Nat) (m : Bytes),
+      salsaLoop S fuel (toLE 8 (c % 2 ^ 64)) m = specLoop (fun i => S (toLE 8 (i % 2 ^ 64))) fuel c m
+  | 0, _, _ => rfl
+  | fuel + 1, c, m => by
+    simp only [salsaLoop, specLoop, salsaCtrInc_toLE, salsaLoop_eq_specLoop S fuel (c + 1)]
+
+theorem zeros8_eq : zeros 8 = toLE 8 (0 % 2 ^ 64) := by decide
+
 end Sodium
